@@ -1057,7 +1057,9 @@ def mixed_call_cases(ctx, count, only=None):
         rng = random.Random(seed)
         case = {'kind': 'mixed-calls', 'seed': seed, 'ptype': ptype}
         if ptype.startswith('multi'):
-            members = [EchoPort(f'm{i}') for i in range(int(ptype[-1]))]
+            # (members may well carry the same name - or none: a name is a label, not an identity)
+            naming = rng.choice((lambda i: f'm{i}', lambda i: 'member', lambda i: None, lambda i: ''))
+            members = [EchoPort(naming(i)) for i in range(int(ptype[-1]))]
             port = MultiPort(members)
             outs = members
         elif ptype == 'echo':
@@ -1103,6 +1105,49 @@ def mixed_call_cases(ctx, count, only=None):
     return n
 
 
+def burst_cases(ctx):
+    """The senders get far ahead of the receiver: thousands of messages are delivered (by two threads, through put()
+    and put_bytes()) before the first one is read.  A queue port has no documented capacity: every message comes out,
+    each sender's in order."""
+    import threading as _th
+    n = 0
+    for per_sender in (700, 3000):
+        case = {'kind': 'burst', 'per_sender': per_sender}
+        q = ParserQueue()
+        errors = []
+
+        def feeder(s):
+            try:
+                for i in range(per_sender):
+                    m = Message('sysex', data=(s, i % 128, (i // 128) % 128))
+                    if s == 0:
+                        q.put(m)
+                    else:
+                        q.put_bytes(m.bytes())
+            except BaseException as exc:
+                errors.append(f'{type(exc).__name__}: {exc}')
+        import warnings
+        with warnings.catch_warnings(record=True) as caught:
+            warnings.simplefilter('always')
+            ths = [_th.Thread(target=feeder, args=(s,), daemon=True) for s in (0, 1)]
+            for t in ths:
+                t.start()
+            for t in ths:
+                t.join(60)
+        stuck = [t for t in ths if t.is_alive()]
+        got = []
+        if not stuck:
+            got = [q.poll(), q.get()] + list(q.iterpoll())
+        tags = [(m.data[0], m.data[1] + 128 * m.data[2]) for m in got if m is not None]
+        per = {s: [i for (s2, i) in tags if s2 == s] for s in (0, 1)}
+        ctx.check('no call raises', not errors and not stuck, 'burst:put-raised-or-blocked', case, {'errors': errors[:2], 'blocked_senders': len(stuck)})
+        ctx.check('exactly once (nothing lost, duplicated, invented)', all(per[s] == list(range(per_sender)) for s in (0, 1)),
+                  'burst:lost', case, {'received': {s: len(v) for s, v in per.items()}, 'sent_each': per_sender,
+                                       'warnings': [str(w.message)[:80] for w in caught][:2]})
+        n += 1
+    return n
+
+
 def run(ctx):
     sh, N = ctx.shard, ctx.nshards
     total = collections.Counter()
@@ -1135,6 +1180,10 @@ def run(ctx):
         ctx.nontrivial(None, k_)
         ctx.extra('helper_argument_cases', k_)
         nstress += k_
+    if sh == 3 % N:
+        k_ = burst_cases(ctx)
+        ctx.nontrivial(None, k_)
+        nstress += k_
     k_ = mixed_call_cases(ctx, 300 if ctx.tier == 'quick' else 20000)
     ctx.nontrivial(None, k_)
     ctx.extra('mixed_call_sequences', k_)
@@ -1155,6 +1204,9 @@ def run(ctx):
 
 
 def replay(ctx, case):
+    if case.get('kind') == 'burst':
+        burst_cases(ctx)
+        return
     if case.get('kind') == 'mixed-calls':
         mixed_call_cases(ctx, 1, only=(case['seed'], case['ptype']))
         return
